@@ -58,7 +58,7 @@ def applyVisible (cfg : Cfg) (s : State) : Ev → Option State
 def hidden (s : State) (timeouts : Bool) : List Action :=
   (List.range s.snd.length).map Action.snd ++ (List.range s.cls.length).map Action.cls ++
   [.win, .wRecv, .wDone, .wWrite true, .wWrite false, .wFlush, .wWgDone,
-   .rFrame, .rPush, .rCheck, .rErr true, .rErr false, .rDrop, .rClose, .rWgDone, .rNil, .inbPop, .errPop] ++
+   .rArm, .rChk, .rFrame, .rPush, .rCheck, .rErr true, .rErr false, .rDrop, .rClose, .rWgDone, .rNil, .inbPop, .errPop] ++
   (if timeouts then [.rTimeout] else [])
 
 structure Key where
